@@ -194,6 +194,9 @@ fn check_insertions(c: &Case, base: &WTrace, ins: &[(usize, WOp, String)], st: &
                 Ok(()) => {
                     // not a C19 matter: C11 judges acceptance (hierarchy), width boundary cases are left open
                     st.inc("expected_failure_was_accepted");
+                    if std::env::var("VERIF_TRACE_REJECT").is_ok() {
+                        eprintln!("C19 expected failure accepted: {} (expecting {})\n {}", ops2[i].short(), want, ctx());
+                    }
                     return Ok(false);
                 }
                 Err(e) if e.kind() != want.as_str() => {
